@@ -58,7 +58,7 @@ func obTypeTables(c *rules.Ctx, id string) {
 func init() {
 	Registry["C13"] = &Spec{
 		Explanation: "Decides structural necessary conditions of 'values keep their exact meaning across literal, variable and metadata text': (1) every conversion from text to a number in the parser, interpreter and checker is a big-integer parse with the constant base 10 - no base auto-detection (big.Rat.SetString, base 0), no range-bounded converter (strconv, float powers); (2) every rendering of a value to text uses base-ten exact forms; (3) the four type tables (checker type names, parseVar arms, expect* functions, Value implementers) are in bijection and MarshalJSON reads the same components as String, so transaction and account metadata carry the same text; (4) both percentage readers scale by 10^(2+fraction digits).",
-		NotDecided: []string{"round-trip equality for arbitrary values (a string containing a space read back as a monetary, an asset outside the ASSET class): quantifies over values", "that the digit groups are combined with the right arithmetic beyond the scale exponent"},
+		NotDecided:  []string{"round-trip equality for arbitrary values (a string containing a space read back as a monetary, an asset outside the ASSET class): quantifies over values", "that the digit groups are combined with the right arithmetic beyond the scale exponent"},
 		Assumptions: []string{A1, A3, A4},
 		Run: func(c *rules.Ctx) {
 			obNumText(c, "C13.1")
